@@ -5,12 +5,16 @@
 // Case: {"id", "scripts": [[ [kind,key,val,err], ... ] per thread], "sched": [tid...], "free": bool}
 //   kind 0 = SingleFlight.DoEx, 1 = LockedCalls.Do, 2 = ResourceManager.GetResource,
 //        3 = SingleFlight.Do (fresh not observable, reported as -1)
+//        4 = collection.Cache.Take, 5 = stores/cache node Take (miniredis) — the two anchored
+//            users of the barrier; only the event log is checked for them (prop_ok);
+//        6 / 7 = delete the key from the collection.Cache / the cache node
 // Events (logical clock): inv (call invoked), fs / fe (user function started / ended),
 //   ret [val, err, fresh] (call returned).  The user function parks at gate "fn"
 //   between fs and fe.
 package main
 
 import (
+	"errors"
 	"fmt"
 	"io"
 	"strconv"
@@ -18,6 +22,11 @@ import (
 	"sync/atomic"
 	"time"
 
+	"github.com/alicebob/miniredis/v2"
+	"github.com/zeromicro/go-zero/core/collection"
+	"github.com/zeromicro/go-zero/core/logx"
+	"github.com/zeromicro/go-zero/core/stores/cache"
+	"github.com/zeromicro/go-zero/core/stores/redis"
 	"github.com/zeromicro/go-zero/core/syncx"
 	"verifh/hx"
 	"verifh/sched"
@@ -84,6 +93,8 @@ func (g *gatedSF) DoEx(key string, fn func() (any, error)) (any, bool, error) {
 	return g.inner.DoEx(key, fn)
 }
 
+var errNotFound = errors.New("verif: not found")
+
 type res struct{ id int64 }
 
 func (r *res) Close() error { return nil }
@@ -97,6 +108,29 @@ func runCase(c Case) (out Out) {
 	lc := syncx.NewLockedCalls()
 	rm := syncx.NewResourceManager()
 	rm.VerifWrapFlight(func(inner syncx.SingleFlight) syncx.SingleFlight { return &gatedSF{inner: inner, ctl: ctl} })
+
+	// the anchored users of the barrier, created on demand
+	var cc *collection.Cache
+	var node cache.Cache
+	var mini *miniredis.Miniredis
+	for _, sc := range c.Scripts {
+		for _, op := range sc {
+			if (op[0] == 4 || op[0] == 6) && cc == nil {
+				cc, _ = collection.NewCache(time.Hour)
+			}
+			if (op[0] == 5 || op[0] == 7) && node == nil {
+				var err error
+				mini, err = miniredis.Run()
+				if err != nil {
+					out.Err = "miniredis: " + err.Error()
+					return out
+				}
+				defer mini.Close()
+				node = cache.NewNode(redis.New(mini.Addr()), syncx.NewSingleFlight(), cache.NewStat("verif"), errNotFound)
+				ctl.MinQuiet = 3 * time.Millisecond
+			}
+		}
+	}
 
 	// direct monitor (free mode): per (kind-group, key) in-flight gauge
 	var gmu sync.Mutex
@@ -186,6 +220,38 @@ func runCase(c Case) (out Out) {
 						rv = x
 					}
 					ctl.Log(tid, "ret", i, rv, errCode(err), -1)
+				case 4:
+					v, err := cc.Take(ks, func() (any, error) {
+						body(tid, i, 4, key)
+						return val, mkErr(e)
+					})
+					rv := int64(-1)
+					if x, ok := v.(int64); ok {
+						rv = x
+					}
+					ctl.Log(tid, "ret", i, rv, errCode(err), -1)
+				case 5:
+					var got int64 = -1
+					err := node.Take(&got, ks, func(v any) error {
+						body(tid, i, 5, key)
+						if e != 0 {
+							return mkErr(e)
+						}
+						*(v.(*int64)) = val
+						return nil
+					})
+					if err != nil {
+						got = -1
+					}
+					ctl.Log(tid, "ret", i, got, errCode(err), -1)
+				case 6, 7: // invalidate the cached entry
+					ctl.Log(tid, "del", i, key)
+					if kind == 6 {
+						cc.Del(ks)
+					} else {
+						_ = node.Del(ks)
+					}
+					ctl.Log(tid, "ret", i, -1, 0, -2)
 				case 2:
 					r, err := rm.GetResource(ks, func() (io.Closer, error) {
 						body(tid, i, 2, key)
@@ -243,6 +309,7 @@ func runCase(c Case) (out Out) {
 }
 
 func main() {
+	logx.Disable()
 	var cases []Case
 	hx.ReadCases(&cases)
 	w := hx.NewWriter()
